@@ -178,3 +178,241 @@ def foreign_scope(rng, pool: list[str]) -> tuple[str, tuple]:
         s += '#' + frag
     kind = 'loc' if loc else ('ctx' if scheme.startswith('sdc.') else 'other')
     return s, ('gen', kind, auth[:12], nseg, qi)
+
+
+# ---------------------------------------------------------------------------------------------
+# URI grammar for WS-Discovery scope matching (C14).  Everything produced here is a syntactically valid RFC 3986 URI
+# (plus, at a low rate, IRIs with raw non-ASCII path characters).  A URI is described structurally:
+#   {'scheme', 'authority' (None = absent), 'absolute' (bool), 'segments': [bytes, ...] (DECODED octets), 'query', 'fragment'}
+# and rendered with a randomly chosen percent-encoding, so that several spellings of the same URI exist.
+# ---------------------------------------------------------------------------------------------
+URI_SCHEMES = ['http', 'https', 'sdc.ctxt.loc', 'sdc.mds.pkp', 'sdc.cdc.type', 'urn', 'ldap', 'x-y+z.1', 'a', 'ws']
+URI_AUTHORITIES = [None, None, None, 'example.com', 'example.com', 'host:8080', 'user@host', 'User:Pw@Host.Example', '[::1]', '[2001:db8::a]:3702',
+                   '127.0.0.1', '', 'a-b.c_d~e', 'xn--bcher-kva.example']
+SEG_ATOMS = [b'a', b'b', b'c', b'A', b'B', b'abc', b'Abc', b'sdc.ctxt.loc.detail', b'HOSP1', b'CU1', b'Bed42', b'1.2.840.10004', b'x', b'y', b'z', b'0',
+             b'a/b', b'/', b'//', b'a%b', b'%', b'%2F', b'%25', b'a b', b' ', b'a+b', b'a?b', b'a#b', b'a&b=c', b'a;b', b'a:b', b'a@b', b'~', b'-._~',
+             b"!$&'()*+,;=", 'ä'.encode(), 'Ä'.encode(), '中文'.encode(), '\U0001F600'.encode(), 'Å'.encode(), b'.', b'..', b'',
+             b'', b'HOSP1///CU1//Bed42', b'a' * 40]
+URI_QUERIES = [None, None, None, 'a=b', 'x', 'p=/q/r', 'fac=HOSP1&poc=CU1', '', 'a?b', '%2F']
+URI_FRAGMENTS = [None, None, None, None, 'frag', 'a/b', '', '/x']
+UNRESERVED = frozenset(b'ABCDEFGHIJKLMNOPQRSTUVWXYZabcdefghijklmnopqrstuvwxyz0123456789-._~')
+PCHAR_RAW = UNRESERVED | frozenset(b"!$&'()*+,;=:@")
+INVALID_UTF8 = [b'\xff', b'\xfe', b'\xc3', b'\xc3\x28', b'\xe2\x82', b'\x80', b'\xf8\x88\x80\x80', b'\xed\xa0\x80', b'\xc0\xaf']
+
+
+def encode_segment(seg: bytes, rng, mode: str) -> str:
+    """render decoded octets as a URI path segment.  mode: 'min' (encode only what must be), 'over' (also encode a random part of the
+    characters that need not be), 'all', 'iri' (valid UTF-8 non-ASCII stays raw).  Hex digits upper / lower case at random for over/all."""
+    out = []
+    if mode == 'iri':
+        try:
+            text = seg.decode('utf-8')
+        except UnicodeDecodeError:
+            mode, text = 'min', None
+        if text is not None:
+            for ch in text:
+                o = ord(ch)
+                if o < 0x80:
+                    out.append(ch if o in PCHAR_RAW else '%%%02X' % o)
+                elif ch.isprintable() and not ch.isspace():
+                    out.append(ch)
+                else:
+                    out.append(''.join('%%%02X' % b for b in ch.encode()))
+            return ''.join(out)
+    for b in seg:
+        raw_ok = b in PCHAR_RAW
+        if mode == 'min':
+            enc = not raw_ok
+        elif mode == 'all':
+            enc = True
+        else:
+            enc = (not raw_ok) or rng.random() < 0.35
+        if enc:
+            h = '%%%02X' % b
+            if mode != 'min' and rng.random() < 0.5:
+                h = h.lower()
+            out.append(h)
+        else:
+            out.append(chr(b))
+    return ''.join(out)
+
+
+def render_uri(u: dict, rng, mode: str = None) -> str:
+    mode = mode or rng.choice(['min', 'min', 'over', 'over', 'all', 'iri'])
+    s = u['scheme'] + ':'
+    if u['authority'] is not None:
+        s += '//' + u['authority']
+    segs = [encode_segment(x, rng, mode) for x in u['segments']]
+    if u['absolute'] or u['authority'] is not None:
+        s += '/' + '/'.join(segs) if segs else ''
+    else:
+        s += '/'.join(segs)
+    if u['query'] is not None:
+        s += '?' + u['query']
+    if u['fragment'] is not None:
+        s += '#' + u['fragment']
+    return s
+
+
+def _segment(rng, pool_bytes) -> bytes:
+    r = rng.random()
+    if r < 0.75:
+        return rng.choice(SEG_ATOMS)
+    if r < 0.9:
+        return rng.choice(SEG_ATOMS) + rng.choice(SEG_ATOMS)
+    return rng.choice(pool_bytes)
+
+
+def gen_uri(rng, pool_bytes) -> dict:
+    scheme = rng.choice(URI_SCHEMES)
+    if rng.random() < 0.2:
+        scheme = ''.join(c.upper() if rng.random() < 0.5 else c for c in scheme)
+    authority = rng.choice(URI_AUTHORITIES)
+    n = rng.choice([0, 1, 1, 2, 2, 3, 3, 4, 5])
+    segs = [_segment(rng, pool_bytes) for _ in range(n)]
+    absolute = True
+    if authority is None and n and rng.random() < 0.3:
+        absolute = False
+        if segs[0] == b'':
+            segs[0] = b'r'  # path-rootless starts with a non-empty segment
+    if authority is None and absolute and segs and segs[0] == b'':
+        segs[0] = b's'  # a path cannot begin with '//' when there is no authority
+    if not segs:
+        absolute = rng.random() < 0.5  # '' or ... rendered '' either way (absolute with zero segments renders as empty path)
+    return {'scheme': scheme, 'authority': authority, 'absolute': absolute, 'segments': segs, 'query': rng.choice(URI_QUERIES),
+            'fragment': rng.choice(URI_FRAGMENTS)}
+
+
+def _swapcase_ascii(s: str) -> str:
+    return ''.join(c.swapcase() if c.isascii() else c for c in s)
+
+
+VARIANTS = ['same', 'same', 'reencode', 'reencode', 'scheme_case', 'auth_case', 'path_case', 'seg_prefix', 'seg_prefix', 'seg_prefix', 'seg_prefix_trailing_slash',
+            'longer', 'string_prefix', 'slash_vs_2F', 'split_2F', 'other_scheme', 'other_auth', 'query_differs', 'fragment_differs', 'unrelated',
+            'invalid_utf8', 'empty_path', 'swap_prefix', 'empty_segment_dropped', 'abs_vs_rootless', 'dot_segment']
+
+
+def derive(rng, base: dict, variant: str, pool_bytes) -> dict | None:
+    """a second URI standing in a named relation to base (None if the relation cannot be built from this base).
+    The relation name is only used for the shape / mechanism key - the oracle works on the rendered strings."""
+    u = {**base, 'segments': list(base['segments'])}
+    segs = u['segments']
+    if variant in ('same', 'reencode'):
+        return u
+    if variant == 'scheme_case':
+        u['scheme'] = _swapcase_ascii(u['scheme'])
+        return u
+    if variant == 'auth_case':
+        if not u['authority'] or u['authority'] == _swapcase_ascii(u['authority']):
+            return None
+        u['authority'] = _swapcase_ascii(u['authority'])
+        return u
+    if variant == 'path_case':
+        idx = [i for i, s in enumerate(segs) if any(65 <= b <= 90 or 97 <= b <= 122 for b in s)]
+        if not idx:
+            return None
+        i = rng.choice(idx)
+        segs[i] = bytes((b ^ 0x20) if (65 <= b <= 90 or 97 <= b <= 122) else b for b in segs[i])
+        return u
+    if variant == 'seg_prefix':
+        if not segs:
+            return None
+        u['segments'] = segs[:rng.randrange(len(segs))]
+        return u
+    if variant == 'seg_prefix_trailing_slash':
+        if len(segs) < 2:
+            return None
+        u['segments'] = segs[:rng.randrange(1, len(segs))] + [b'']
+        return u
+    if variant == 'longer':
+        u['segments'] = segs + [_segment(rng, pool_bytes)]
+        if not u['absolute'] and len(u['segments']) == 1 and u['segments'][0] == b'':
+            u['segments'] = [b'q']
+        if u['authority'] is None and u['absolute'] and u['segments'][0] == b'':
+            u['segments'][0] = b's'
+        return u
+    if variant == 'string_prefix':
+        if not segs or len(segs[-1]) < 2:
+            return None
+        try:
+            segs[-1].decode('utf-8')
+            cut = segs[-1].decode('utf-8')[:-1].encode('utf-8')
+        except UnicodeDecodeError:
+            cut = segs[-1][:-1]
+        if not cut:
+            return None
+        segs[-1] = cut
+        return u
+    if variant == 'slash_vs_2F':  # two segments a, b  ->  ONE segment whose octets are a '/' b
+        if len(segs) < 2:
+            return None
+        i = rng.randrange(len(segs) - 1)
+        u['segments'] = segs[:i] + [segs[i] + b'/' + segs[i + 1]] + segs[i + 2:]
+        if u['authority'] is None and u['absolute'] and u['segments'][0] == b'':
+            return None
+        return u
+    if variant == 'split_2F':  # a segment containing '/' octets is split into real segments
+        idx = [i for i, s in enumerate(segs) if b'/' in s]
+        if not idx:
+            return None
+        i = rng.choice(idx)
+        parts = segs[i].split(b'/')
+        u['segments'] = segs[:i] + parts + segs[i + 1:]
+        if u['segments'][0] == b'' and (u['authority'] is None or not u['absolute']):
+            return None
+        return u
+    if variant == 'other_scheme':
+        u['scheme'] = rng.choice([s for s in URI_SCHEMES if s.lower() != base['scheme'].lower()])
+        return u
+    if variant == 'other_auth':
+        cand = [a for a in URI_AUTHORITIES + ['example.com:80', 'example.org', 'host'] if (a or '').lower() != (base['authority'] or '').lower()]
+        u['authority'] = rng.choice(cand)
+        if u['authority'] is None:
+            if u['absolute'] and segs and segs[0] == b'':
+                return None
+        elif not u['absolute'] and segs:
+            u['absolute'] = True
+        return u
+    if variant == 'query_differs':
+        u['query'] = rng.choice([q for q in URI_QUERIES + ['zzz'] if q != base['query']])
+        return u
+    if variant == 'fragment_differs':
+        u['fragment'] = rng.choice([f for f in URI_FRAGMENTS + ['zzz'] if f != base['fragment']])
+        return u
+    if variant == 'unrelated':
+        return gen_uri(rng, pool_bytes)
+    if variant == 'invalid_utf8':  # handled by the caller: both URIs get an invalid octet sequence
+        if not segs:
+            return None
+        i = rng.randrange(len(segs))
+        a, b = rng.sample(INVALID_UTF8, 2)
+        base['segments'][i] = base['segments'][i] + a
+        segs[i] = segs[i] + (b if rng.random() < 0.7 else a)
+        return u
+    if variant == 'empty_path':
+        u['segments'] = []
+        return u
+    if variant == 'swap_prefix':
+        return derive(rng, base, 'longer', pool_bytes)
+    if variant == 'empty_segment_dropped':
+        idx = [i for i, s in enumerate(segs) if s == b'']
+        if not idx:
+            return None
+        del segs[rng.choice(idx)]
+        if u['authority'] is None and u['absolute'] and segs and segs[0] == b'':
+            return None
+        if not u['absolute'] and segs and segs[0] == b'':
+            return None
+        return u
+    if variant == 'abs_vs_rootless':
+        if u['authority'] is not None or not segs or segs[0] == b'':
+            return None
+        u['absolute'] = not u['absolute']
+        return u
+    if variant == 'dot_segment':
+        if not segs:
+            return None
+        i = rng.randrange(len(segs))
+        segs.insert(i, rng.choice([b'.', b'..']))
+        return u
+    raise ValueError(variant)
